@@ -83,7 +83,7 @@ def generate(rng, tier, index):
     if k in (3, 4, 5):
         return {'kind': 'grain', 'dist': rng.choice(['lognormal', 'hillert', 'bimodal']), 'mu': 1e-5 * rng.choice([0.5, 1, 2]), 'sigma': rng.choice([0.15, 0.3, 0.5]), 'seed': rng.randint(0, 10 ** 6),
                 'zf': rng.choice([0.0, 0.0, 0.05, 0.3, 0.9, 1.5, 5.0]), 'it': rng.choice(['euler', 'rk4']), 'ks': [rng.choice([5, 20, 60]) for _ in range(rng.choice([1, 2, 3]))],
-                'bins': 2 * rng.randint(40, 75), 'M': 1e-14 * rng.choice([1, 10]), 'gbe': rng.choice([0.5, 0.3]), 'alpha': rng.choice([1, 0.5, 2, 3])}
+                'bins': 2 * rng.randint(40, 75), 'M': 1e-14 * rng.choice([1, 10]), 'gbe': rng.choice([0.5, 0.3]), 'alpha': rng.choice([1, 0.5, 2, 3]), 'reset_after': rng.random() < 0.3}
     sp = gen_strength_params(rng)
     pts = []
     for _ in range(rng.randint(10, 25)):
@@ -298,6 +298,25 @@ def run_grain(rec, F, cnt, sig):
         bad = np.nonzero(dec > allow[:len(dec)])[0]
         if len(bad):
             F.add('C18.mean_size_decreases', f'no pinning: mean grain size fell from {a[bad[0]]!r} to {a[bad[0] + 1]!r} at step {bad[0] + 1} (relative {dec[bad[0]]:.2e}, volume renormalisation explains {allow[bad[0]]:.2e})', what='mean')
+    if rec.get('reset_after'):
+        # reuse of the model object: reset() puts the loaded (normalised) distribution back; total grain volume is 1 before and after
+        # the next solve call, as on the first run
+        gg.reset()
+        sig.add('reset')
+        m3r = float(np.sum(np.asarray(gg.pbm.PSD, dtype=float) * np.asarray(gg.pbm.PSDsize, dtype=float) ** 3))
+        if abs(m3r - 1) > 1e-12:
+            F.add('C18.grain_volume', f'after reset() the total grain volume is {m3r!r} != 1 (the loaded distribution had volume 1)', what='volume_after_reset')
+        elif len(gg.pbm.PSD) == len(x0) and not np.array_equal(np.asarray(gg.pbm.PSD), x0):
+            F.add('C18.reset_restores', 'reset() did not restore the loaded grain size distribution', what='reset')
+        else:
+            try:
+                gg.solve(rec['ks'][0] * dt0, solverType=W.ITER[rec['it']])
+                m3s = float(np.sum(gg.pbm.PSD * gg.pbm.PSDsize ** 3))
+                if abs(m3s - 1) > 1e-12:
+                    F.add('C18.grain_volume', f'total grain volume after the run that followed reset() {m3s!r} != 1', what='volume_after_reset')
+            except Exception as e:  # noqa
+                F.add('C18.exception.' + type(e).__name__, f'grain growth solve after reset() raised {type(e).__name__}: {e}', what='grain')
+        return gg
     if rec['zf'] > 1.0 and gg.pbm.bins == len(x0):
         if not np.allclose(np.asarray(gg.pbm.PSD), x0, rtol=1e-12, atol=0):
             F.add('C18.not_frozen', f'drag {rec["zf"]} x the freezing level but the grain distribution changed (max rel change {float(np.max(np.abs(gg.pbm.PSD - x0) / np.maximum(x0, 1e-300)))!r})', what='frozen')
